@@ -42,6 +42,9 @@ Not covered (this is the modelling assumption that the dynamic tie `harness/corr
 performed inside external libraries other than through the method/function names listed here, bound mutator
 methods stored in variables (rejected loudly), `warnings.warn` bookkeeping (`__warningregistry__`).
 
+The guarded verification hook at the end of constants.py (`if … 'GEODEPY_VERIF' …:`, DESIGN section 8) is
+instrumentation and is left out of the analysis; it is reported under "skipped_hook_blocks".
+
 Anything the tool cannot classify is an error: `EFFECTS-ERROR file:line …`, exit status 3. Nothing is skipped.
 
 Output: a Lean file (core Lean only) with `Root`, `Row`, `effects`, `functions`; a JSON summary on stdout
@@ -56,6 +59,7 @@ import json
 import argparse
 import builtins as _builtins
 
+HOOK_GUARD = 'GEODEPY_VERIF'
 MODULES = ['constants', 'convert', 'geodesy', 'statistics', 'survey', 'transform']
 PKG = 'geodepy'
 
@@ -117,7 +121,8 @@ FRESH_METHODS = {'copy', 'tolist', 'astype', 'lower', 'upper', 'strip', 'rstrip'
                  'values', 'startswith', 'endswith', 'count', 'index', 'find', 'isdigit', 'title', 'capitalize',
                  'encode', 'decode', 'total_seconds', 'toordinal', 'weekday', 'dot', 'sum', 'mean', 'std',
                  'min', 'max', 'trace', 'item', 'conjugate', 'is_integer', 'as_integer_ratio', 'hex', 'bit_length',
-                 'deepcopy', 'partition_', 'center', 'ljust', 'rjust', 'splitlines', 'cumsum', 'round', 'all', 'any'}
+                 'deepcopy', 'center', 'ljust', 'rjust', 'splitlines', 'cumsum', 'round', 'all', 'any'}
+VIEW_ATTRS = {'T', 'mT', 'real', 'imag', 'flat', 'base', 'A', 'A1', 'H', 'I', '__dict__', '__self__'}
 FORBIDDEN_BUILTINS = {'exec', 'eval', 'compile', '__import__', 'locals', 'breakpoint'}
 
 BUILTIN_NAMES = set(dir(_builtins))
@@ -176,7 +181,7 @@ class Func:
         if k == 0 and self.has_self:
             return self.selfsite if self.is_init else ('self', self.qual)
         if k == 0 and self.cls is not None and self.kind == 'classmethod':
-            return ('global', f'{self.mod.name}.{self.cls}')
+            return ('global', f'{PKG}.{self.mod.name}.{self.cls}')
         return ('param', self.qual, k, self.params[k])
 
 
@@ -275,11 +280,13 @@ class World:
         self.modules = {}
         self.funcs = []           # all Func, definition order
         self.func_by_path = {}    # 'transform.conform7', 'constants.Transformation.__add__'
+        self.func_by_pkgpath = {}  # 'geodepy.transform.conform7'
         self.func_by_node = {}
         self.classes = set()      # 'constants.Transformation'
         self.methods_by_name = {}  # '__add__' -> [Func]
         self.site_contents = {}
         self.changed = False
+        self.skipped_hooks = []
 
     # -- tables ---------------------------------------------------------------------------------
     def grow(self, s, new):
@@ -288,19 +295,32 @@ class World:
         if len(s) != n:
             self.changed = True
 
-    def contents(self, site):
-        return self.site_contents.setdefault(site, set())
+    def contents(self, site, field='*'):
+        """tags of what was stored into objects allocated at `site`, per attribute name ('*': elements, unknown)"""
+        return self.site_contents.setdefault(site, {}).setdefault(field, set())
+
+    def field(self, tags, name=None):
+        """what a load `X.name` (name=None: `X[i]`, any field) may give besides X itself"""
+        out = set()
+        for t in tags:
+            if is_site(t):
+                for fld, c in self.site_contents.get(t, {}).items():
+                    if name is None or fld == name or fld == '*':
+                        out |= c
+        return out
 
     def closure(self, tags):
+        """everything reachable"""
         out = set(tags)
         work = [t for t in tags if is_site(t)]
         while work:
             s = work.pop()
-            for t in self.site_contents.get(s, ()):
-                if t not in out:
-                    out.add(t)
-                    if is_site(t):
-                        work.append(t)
+            for c in self.site_contents.get(s, {}).values():
+                for t in c:
+                    if t not in out:
+                        out.add(t)
+                        if is_site(t):
+                            work.append(t)
         return out
 
     # -- loading --------------------------------------------------------------------------------
@@ -315,6 +335,18 @@ class World:
                 raise EffectsError(f'{path}:{getattr(e, "lineno", 0) or 0} cannot parse: {e}')
             mod = Module(m, path, tree)
             self.modules[m] = mod
+            # the verification hook (DESIGN section 8) is instrumentation, not library code: a module-level
+            # `if <...'GEODEPY_VERIF'...>:` block without else-branch is left out (and reported in the summary)
+            kept = []
+            for st in tree.body:
+                if (isinstance(st, ast.If) and any(isinstance(n, ast.Constant) and n.value == HOOK_GUARD
+                                                    for n in ast.walk(st.test))):
+                    if st.orelse:
+                        err(mod, st, f'{HOOK_GUARD} guard with an else-branch cannot be classified')
+                    self.skipped_hooks.append(f'{path}:{st.lineno}')
+                    continue
+                kept.append(st)
+            tree.body = kept
             bound, gl, nl, imp, other = bound_names(tree.body, mod)
             mod.names = bound
             for nm, origins in imp.items():
@@ -401,6 +433,7 @@ class World:
             f.selfsite = ('site', ('selfinit', f.qual))
         self.funcs.append(f)
         self.func_by_path[f.qual] = f
+        self.func_by_pkgpath[f'{PKG}.{f.qual}'] = f
         self.func_by_node[id(node)] = f
         if cls is not None:
             self.methods_by_name.setdefault(f.name, []).append(f)
@@ -409,20 +442,17 @@ class World:
     # -- names ----------------------------------------------------------------------------------
     @staticmethod
     def strip_pkg(origin):
-        if origin == PKG:
-            return PKG
-        if origin.startswith(PKG + '.'):
-            return origin[len(PKG) + 1:]
+        # intra-package paths keep their `geodepy.` prefix (geodepy.statistics is not the stdlib statistics)
         return origin
 
     def canon_global(self, mod, name):
         if name in mod.imports:
             return self.strip_pkg(mod.imports[name])
         if name in mod.names:
-            return f'{mod.name}.{name}'
+            return f'{PKG}.{mod.name}.{name}'
         if name in BUILTIN_NAMES:
             return f'builtins.{name}'
-        return f'{mod.name}.{name}'
+        return f'{PKG}.{mod.name}.{name}'
 
     # -- driver ---------------------------------------------------------------------------------
     def analyse(self):
@@ -473,17 +503,24 @@ class Analyzer:
         for a in self.accs:
             a.setdefault(name, set()).update(tags)
 
-    def store_into(self, objtags, valtags):
-        """something with tags `valtags` is stored inside the objects `objtags`"""
-        c = self.w.closure(valtags)
+    def store_into(self, objtags, valtags, field='*'):
+        """something with tags `valtags` is stored inside the objects `objtags` (attribute `field`, '*': element)"""
         for t in objtags:
             if is_site(t):
-                self.w.grow(self.w.contents(t), c)
+                self.w.grow(self.w.contents(t, field), valtags)
 
     def row(self, node, kind, target_text, obj_expr, tags):
         key = (node.lineno, node.col_offset, kind, target_text)
-        r = self.f.rows.setdefault(key, {'tags': set(), 'obj': obj_expr})
+        e = obj_expr
+        while isinstance(e, (ast.Attribute, ast.Subscript, ast.Starred)):
+            e = e.value
+        root_name = e.id if isinstance(e, ast.Name) else None
+        r = self.f.rows.setdefault(key, {'tags': set(), 'obj': obj_expr, 'root_name': root_name,
+                                         'root_local': False})
         r['tags'] |= tags
+        if root_name is not None and self.is_local_name(root_name):
+            r['root_local'] = True
+        r['root_comp'] = r.get('root_comp', False) or any(root_name in sc for sc in self.scopes)
 
     # ---- name lookup ---------------------------------------------------------------------------
     def lookup(self, name, env):
@@ -703,7 +740,7 @@ class Analyzer:
         elif isinstance(target, ast.Attribute):
             obj = self.ev(target.value, env)
             self.row(target, 'attr-augassign' if aug else 'attr-assign', ast.unparse(target), target.value, obj)
-            self.store_into(obj, tags)
+            self.store_into(obj, tags, target.attr)
         elif isinstance(target, ast.Subscript):
             obj = self.ev(target.value, env)
             self.ev(target.slice, env)
@@ -770,10 +807,7 @@ class Analyzer:
         c = set()
         for p in parts:
             c |= p
-        if c:
-            self.w.grow(self.w.contents(s), self.w.closure(c))
-        else:
-            self.w.contents(s)
+        self.w.grow(self.w.contents(s), c)
         return {s}
 
     def ev(self, e, env):
@@ -783,13 +817,19 @@ class Analyzer:
         if t is ast.Name:
             return self.lookup(e.id, env)
         if t is ast.Attribute:
-            if e.attr in MUTATORS:
+            if e.attr in MUTATORS and self.resolve(e.value) not in NAMESPACES:
                 err(self.mod, e, f'bound in-place method `{ast.unparse(e)}` used as a value cannot be classified')
-            return self.w.closure(self.ev(e.value, env))
+            v = self.ev(e.value, env)
+            # param/self/global tags stand for everything reachable from them; for an object created here
+            # X.a is what was stored in X.a (or anywhere unknown), and X itself for the numpy view attributes
+            out = {t for t in v if not is_site(t)} | self.w.field(v, e.attr)
+            if e.attr in VIEW_ATTRS:
+                out |= v
+            return out
         if t is ast.Subscript:
             v = self.ev(e.value, env)
             self.ev(e.slice, env)
-            return self.w.closure(v)
+            return v | self.w.field(v)
         if t is ast.Slice:
             for x in (e.lower, e.upper, e.step):
                 if x is not None:
@@ -913,23 +953,26 @@ class Analyzer:
         path = self.resolve(fn)
         recv_expr = fn.value if isinstance(fn, ast.Attribute) else None
         recv_path = self.resolve(recv_expr) if recv_expr is not None else None
-        recv_is_ns = recv_path is not None and (recv_path in NAMESPACES or recv_path in MODULES
-                                                or recv_path in w.classes
-                                                or recv_path in ('builtins.object', 'builtins.list',
-                                                                 'builtins.dict', 'builtins.set'))
+        recv_is_class = recv_path is not None and (recv_path in w.classes or recv_path in
+                                                   ('builtins.object', 'builtins.list', 'builtins.dict',
+                                                    'builtins.set', 'builtins.bytearray'))
+        recv_is_ns = recv_path is not None and (recv_path in NAMESPACES or recv_is_class
+                                                or recv_path in [f'{PKG}.{m}' for m in MODULES])
 
         def unknown_result(extra=()):
             s = self.site(e, 'call')
-            w.grow(w.contents(s), w.closure(allargs | set(extra)))
+            w.grow(w.contents(s), allargs | set(extra))
             return {s} | allargs | set(extra)
 
         def fresh_result(extra=()):
             return self.fresh(e, 'call', [allargs, set(extra)])
 
+        if path is not None and (path in IMPURE_FUNCS or path.startswith(IMPURE_PREFIXES)):
+            self.row(e, 'impure-call', path, None, {('global', path.rsplit('.', 1)[0])})
+            return fresh_result()
+
         # ---- resolved callee ----
         if path is not None and (recv_expr is None or recv_is_ns):
-            if recv_expr is not None:
-                self.ev(recv_expr, env) if not isinstance(recv_expr, (ast.Name, ast.Attribute)) else None
             if path.startswith('builtins.') and path[9:] in FORBIDDEN_BUILTINS:
                 err(self.mod, e, f'call of `{path[9:]}` cannot be classified')
             if path in ('builtins.setattr', 'builtins.delattr'):
@@ -939,7 +982,7 @@ class Analyzer:
                     self.store_into(pos[0], allargs)
                 return set()
             if path == 'builtins.globals':
-                return {('global', f'{self.mod.name}.globals()')}
+                return {('global', f'{PKG}.{self.mod.name}.globals()')}
             if path == 'builtins.vars':
                 if not e.args:
                     err(self.mod, e, 'call of `vars()` without argument cannot be classified')
@@ -948,20 +991,18 @@ class Analyzer:
                 return w.closure(allargs)
             if path == 'builtins.super':
                 return {f.param_tag(0)} if f.params else set()
-            if path in INPLACE_FUNCS:
+            if path in INPLACE_FUNCS or (recv_is_class and fn.attr in MUTATORS):
+                # function form / unbound-method form: the FIRST argument is written
                 if e.args:
                     self.row(e, 'call:' + path, ast.unparse(e.args[0]), e.args[0], pos[0])
                     self.store_into(pos[0], allargs)
                 return unknown_result()
-            if path in IMPURE_FUNCS or path.startswith(IMPURE_PREFIXES):
-                self.row(e, 'impure-call', path, None, {('global', path.rsplit('.', 1)[0])})
-                return fresh_result()
-            g = w.func_by_path.get(path)
+            g = w.func_by_pkgpath.get(path)
             if g is not None and g.cls is None and not g.is_lambda:
                 f.calls.add(g.qual)
                 return self.call_known(e, g, pos, kws, star)
             if path in w.classes:
-                init = w.func_by_path.get(path + '.__init__')
+                init = w.func_by_pkgpath.get(path + '.__init__')
                 if init is not None:
                     f.calls.add(init.qual)
                 return fresh_result()
@@ -1064,11 +1105,7 @@ def classify(w, f, r):
     obj = r['obj']
     ext = sorted((t for t in tags if not is_site(t)), key=lambda t: (-rank(t), describe(f, t)))
     desc = ' | '.join(describe(f, t) for t in ext)
-    # syntactic root
-    e = obj
-    while isinstance(e, (ast.Attribute, ast.Subscript, ast.Starred)):
-        e = e.value
-    root_name = e.id if isinstance(e, ast.Name) else None
+    root_name = r['root_name']
     if obj is None:
         # global-assign / nonlocal-assign / impure-call rows
         t = ext[0]
@@ -1081,10 +1118,9 @@ def classify(w, f, r):
         return ('localFresh', None)
     if root_name is None:
         return ('localAlias', desc)
-    a = Analyzer(w, f)
-    if not a.is_local_name(root_name):
+    if not r['root_local']:
         return ('global', w.canon_global(f.mod, root_name))
-    if root_name in f.params and f.parent is None or (root_name in f.params):
+    if root_name in f.params and not r['root_comp']:
         k = f.params.index(root_name)
         own = f.param_tag(k)
         if f.is_init and k == 0 and f.has_self:
@@ -1218,6 +1254,7 @@ def summary(w, rows, repo, passes, out):
         'by_root': dict(sorted(by_root.items())), 'by_kind': dict(sorted(by_kind.items())),
         'functions_by_module': {m: sum(1 for f in w.funcs if f.mod.name == m) for m in MODULES},
         'offending_rows': non_fresh,
+        'skipped_hook_blocks': w.skipped_hooks,
         'function_list': [f.qual for f in w.funcs],
         'public': [f.qual for f in w.funcs if f.parent is None and not f.is_lambda],
         'calls': {f.qual: sorted(f.calls) for f in w.funcs},
